@@ -75,13 +75,26 @@ impl Monitor for C13L {
             self.inner.own.links = own_links(ctx, &self.truth, pre, &self.reset_since);
             // the duplicate probes queued after the decision do not touch guard state other than
             // the probe counter, so the post-step state carries what the decision computed
+            // the guard's thresholds are start-up settings: they are what the plan configured,
+            // whatever the implementation's snapshot says at this decision
+            let mut cfg = ctx.cfg;
+            cfg.stall_ack_stale_ms = ctx.plan.cfg.stall_ack_stale_ms;
+            cfg.stall_min_in_flight = ctx.plan.cfg.stall_min_in_flight;
+            if ctx.cfg.stall_ack_stale_ms != cfg.stall_ack_stale_ms || ctx.cfg.stall_min_in_flight != cfg.stall_min_in_flight {
+                out.violate(
+                    "C13.window",
+                    "configured_thresholds_not_in_force",
+                    ctx.idx,
+                    format!("the guard was configured with ceiling {} ms / threshold {}, the snapshot this decision runs on says {} ms / {} (liveness timeout {} ms)", cfg.stall_ack_stale_ms, cfg.stall_min_in_flight, ctx.cfg.stall_ack_stale_ms, ctx.cfg.stall_min_in_flight, ctx.cfg.conn_timeout_ms),
+                );
+            }
             let obs = SelectObs {
                 last: ctx.last_selected_pre,
                 result: ctx.world.last_selected_idx,
                 pre: pre.to_vec(),
                 post: ctx.world.conns.iter().cloned().collect(),
                 now: ctx.now,
-                cfg: ctx.cfg,
+                cfg,
             };
             self.inner.judge(&obs, ctx.idx, out);
             for (c, st) in pre.iter().zip(self.inner.st.iter()) {
